@@ -127,7 +127,7 @@ def specFrame (b : Svg.Builder) (n : Nat) (children : List Spec.SvgParse.Tag) : 
 /-- `svg <hex> e m v k <ops> => ok <n> <matrix> <svg utf8 hex>` -/
 def opSvg (prop : String) (args res : List String) : Verdict :=
   match args, res with
-  | [_, _, _, _, _, opsS], ["ok", n, mat, txt] =>
+  | [_, _, _, _, _, opsS], "ok" :: n :: mat :: txt :: xml =>
     let n := n.toNat!
     let a := parseNibbles mat
     match parseSvgOps opsS, bytesToString (parseHexBytes txt) with
@@ -144,7 +144,29 @@ def opSvg (prop : String) (args res : List String) : Verdict :=
           | none => some "not-well-formed"
           | some (_, children) => specFrame b n children
         else Spec.SvgParse.check e s
-      { spec := spec, model := cmp "svg" (Svg.toStr b q) s }
+      -- the verdict of an independent XML parser (roxmltree) on the same text must agree with the recogniser
+      let wf := (Spec.SvgParse.wellFormed s)
+      let xref : Option String :=
+        match xml with
+        | [x] =>
+          (match x.splitOn ":" with
+           | ["xml", "err"] => if wf.isSome then some "SPEC-vs-roxmltree:recogniser-accepts-what-roxmltree-rejects" else none
+           | ["xml", "ok", cnt, href] =>
+             (match wf with
+              | none => some "SPEC-vs-roxmltree:recogniser-rejects-what-roxmltree-accepts"
+              | some (_, children) =>
+                firstFail [
+                  cmp "SPEC-vs-roxmltree:children" cnt (toString children.length),
+                  (match b.image, children.getLast? with
+                   | some img, some im =>
+                     if im.name == "image" then
+                       cmp "SPEC-vs-roxmltree:href" (toHex (img.toUTF8.toList.map (·.toNat)))
+                         (if href == "-" then "" else if img.isEmpty then "" else href)
+                     else none
+                   | _, _ => none)])
+           | _ => none)
+        | _ => none
+      { spec := firstFail [spec, xref], model := cmp "svg" (Svg.toStr b q) s }
     | none, _ => { spec := some "bad-ops" }
     | _, none => { spec := some "svg-is-not-utf8" }
   | _, "trap" :: _ => { spec := some "to_str-panicked", model := some "trap" }
